@@ -73,7 +73,7 @@ def gen_case(rng, kind='valid'):
     if kind == 'voa_margin':
         sp['voa_margin'], sp['voa_step'], sp['power_mode'] = rng.choice([(0, 0.5), (0.1, 1), (0, 1)]) + (True,)
     case['auto_voa'] = kind == 'voa_margin' or rng.random() < 0.4
-    case['si'] = {'power_dbm': rng.choice([0, 0, 1, -1.5]), 'tx_power_dbm': rng.choice([0, 0, None])}
+    case.setdefault('si', {}).update({'power_dbm': rng.choice([0, 0, 1, -1.5]), 'tx_power_dbm': rng.choice([0, 0, None])})
     for ln in case['lines']:
         for e in ln['els']:
             if kind != 'lumped':
@@ -111,12 +111,25 @@ def gen_case(rng, kind='valid'):
             ln['els'] = [c08.gen_amp(rng, 'amp r0', sp['power_mode'], before_raman=True),
                          c08.gen_fiber(rng, 'raman r1', sp['max_length'], raman=True)] + [e for e in ln['els'] if e['k'] == 'F'][:1]
     case['simparams'] = gen_simparams(rng) if rng.random() < 0.5 else None
+    if kind == 'raman':
+        # the settings in force when a Raman span is designed: never the defaults
+        case['simparams'] = gen_simparams(rng)
+        case['simparams']['raman_params']['order'] = rng.choice([1, 3, 4])
+    if kind == 'zero_gain':
+        # gain mode with a by-pass amplifier (gain exactly 0 dB)
+        sp['power_mode'] = False
+        amps = [e for ln in case['lines'] for e in ln['els'] if e['k'] == 'A']
+        if not amps:
+            amps = [{'k': 'A', 'uid': 'amp zero'}]
+            case['lines'][0]['els'].append(amps[0])
+        for a in amps[:max(1, len(amps) // 2)]:
+            a.setdefault('op', {})['gain_target'] = 0
     case['rounds'] = rng.choice([1, 1, 2, 3])
     return case
 
 
 def gen_simparams(rng):
-    sp = {'raman_params': {'flag': False, 'method': rng.choice(['perturbative', 'numerical']), 'order': rng.choice([1, 2, 3]),
+    sp = {'raman_params': {'flag': False, 'method': rng.choice(['perturbative', 'numerical']), 'order': rng.choice([1, 2, 3, 4]),
                            'result_spatial_resolution': rng.choice([10e3, 5e3, 20e3]),
                            'solver_spatial_resolution': rng.choice([10e3, 50, 200])},
           'nli_params': {'method': rng.choice(['gn_model_analytic', 'ggn_spectrally_separated', 'GGN_approx']),
@@ -130,42 +143,6 @@ def gen_simparams(rng):
 
 
 # ------------------------------------------------------------------ counterfactual fixes (proposed minimal repairs)
-@contextlib.contextmanager
-def fix_f19():
-    """Fiber.to_json exports lumped_losses"""
-    from gnpy.core import elements as E
-    orig = E.Fiber.to_json
-
-    def to_json(self):
-        j = orig.fget(self)
-        if len(self.params.lumped_losses) > 0:
-            j['params']['lumped_losses'] = [dict(x) for x in self.params.lumped_losses]
-        return j
-    E.Fiber.to_json = property(to_json)
-    try:
-        yield
-    finally:
-        E.Fiber.to_json = orig
-
-
-@contextlib.contextmanager
-def fix_f8():
-    """Roadm.to_json exports design_bands also when there is a single one"""
-    from gnpy.core import elements as E
-    orig = E.Roadm.to_json
-
-    def to_json(self):
-        j = orig.fget(self)
-        if self.params.design_bands is not None and len(self.params.design_bands) == 1:
-            j['params']['design_bands'] = self.params.design_bands
-        return j
-    E.Roadm.to_json = property(to_json)
-    try:
-        yield
-    finally:
-        E.Roadm.to_json = orig
-
-
 @contextlib.contextmanager
 def fix_f22():
     """the Raman gain estimate is fed the power behind the output VOA of the previous amplifier (pref + dp - voa)"""
@@ -196,7 +173,9 @@ def fix_f22():
 
 # F20 (design_span_loss counted att_in twice) and F21 (automatic VOA above the head-room) were repaired in /repo
 # (13a35c31, 99151283): their streams ('att_in', 'voa_margin') stay as regression streams without a matcher.
-FIX_CTX = {'F19': fix_f19, 'F8': fix_f8, 'F22': fix_f22}
+# F8 (single design band dropped) and F19 (lumped losses not exported) were repaired too (37844749, 562b868b):
+# the 'lumped' stream and the multiband example stay as regressions that must pass.
+FIX_CTX = {'F22': fix_f22}
 
 
 # ------------------------------------------------------------------ driving the implementation
@@ -347,11 +326,8 @@ def attribute(case, pair):
     """minimal set of counterfactual fixes under which the drift disappears (None if none does)"""
     import itertools
     cands = ['F7'] if case['span'].get('EOL') else []
-    cands += ['F19']
     if any(e['k'] == 'R' for ln in case.get('lines', []) for e in ln['els']):
         cands.append('F22')
-    if case.get('multiband'):
-        cands.append('F8')
     for size in (1, 2):
         for sub in itertools.combinations(cands, size):
             r = roundtrip(case, fixes=sub, propagate_pair=pair)
@@ -403,7 +379,7 @@ def line_amp_term(case, ob, ln, cfg):
     else:
         tx = si.get('tx_power_dbm', 0)
         d0 = (tx if tx is not None else pref) - pref
-    nch = int((195.1e12 - 191.3e12) // 50e9)
+    nch = int((si.get('f_max', 195.1e12) - si.get('f_min', 191.3e12)) // 50e9)
     ptot = pref + 10 * math.log10(nch)
     order_flag = True
     term = (f'run_amps ({c08.cfg_term(cfg)}) ({s}) {listlit(lib)} {listlit(sel)} {listlit(rg)} {listlit(ops)} '
@@ -565,8 +541,6 @@ def mk_matcher(cause):
 
 MATCHERS = {
     'F7-eol-readded': mk_matcher('F7'),
-    'F8-roadm-single-design-band-dropped': mk_matcher('F8'),
-    'F19-fiber-to-json-drops-lumped-losses': mk_matcher('F19'),
     'F22-raman-estimate-ignores-out-voa': mk_matcher('F22'),
     'F15-raman-span-loss-without-power': lambda v: (v['key'] == 'redesign_raises' and v.get('detail', {}).get('exc_type') == 'TypeError'
                                                      and v.get('detail', {}).get('raman_gain_mode') is True),
@@ -604,7 +578,7 @@ def run(ctx):
         nvalid = int(os.environ.get('VERIF_C17_N', ctx.scale(45, 800)))
         cases += [gen_case(rng) for _ in range(nvalid)]
         for kind, n in (('eol', ctx.scale(3, 40)), ('lumped', ctx.scale(3, 40)), ('att_in', ctx.scale(3, 40)),
-                        ('voa_margin', ctx.scale(4, 60)), ('raman', ctx.scale(3, 40))):
+                        ('voa_margin', ctx.scale(4, 60)), ('raman', ctx.scale(3, 40)), ('zero_gain', ctx.scale(3, 40))):
             cases += [gen_case(rng, kind) for _ in range(n)]
     terms, meta, replay_sims = [], [], []
     import time
@@ -820,7 +794,6 @@ def run_multiband(ctx, raman):
     if not same:
         ctx.violation('simparams_changed', 'SimParams differ after designing the multiband example', case)
     if d:
-        d2, _ = multiband_roundtrip(('F8',), raman)
         u, p, x, y = d[0]
         desc = f'multiband example: {len(d)} differences between export and re-export, first {u}{p}: {x} -> {y}'
-        ctx.violation('redesign_drift', desc, case, detail={'cause': 'F8' if not d2 else None, 'vanishes_with_fix': not d2})
+        ctx.violation('redesign_drift', desc, case, detail={'cause': None, 'vanishes_with_fix': False})
